@@ -271,7 +271,16 @@ func checkC06(c *Ctx) error {
 		yaml := conf.YAML()
 		_ = work.WriteFile(filepath.Join(dir, "in.yaml"), []byte(yaml))
 		out := filepath.Join(dir, "out.go")
-		run := cli.Do(w, "", nil, dir, out, "build", "-i", "in.yaml", "-o", out)
+		var run cli.Run
+		if i%4 == 1 {
+			// the output path already holds what the tool generated a moment ago for another, valid configuration
+			var ok bool
+			if run, ok = cli.DoAfter(w, "", nil, dir, out, "build", "-i", "in.yaml", "-o", out); ok {
+				c.Add("runs_over_an_earlier_generated_output", 1)
+			}
+		} else {
+			run = cli.Do(w, "", nil, dir, out, "build", "-i", "in.yaml", "-o", out)
+		}
 		files := map[string]string{"input/in.yaml": yaml, "stdout.txt": run.Res.Stdout}
 		for _, b := range run.Contract() {
 			c.Side("C10,C12", "cli-contract:"+sigWords(b), b, files)
